@@ -368,6 +368,12 @@ def check_historical_closes(ds, src, acc, rng):
 
 
 def run_dataset(ds, acc, rng, n_extra=0):
+    import warnings
+    with warnings.catch_warnings():
+        return _run_dataset(ds, acc, rng, n_extra)
+
+
+def _run_dataset(ds, acc, rng, n_extra=0):
     from qstrader.data.daily_bar_csv import CSVDailyBarDataSource
     from qstrader.data.backtest_data_handler import BacktestDataHandler
     if rng.random() < 0.4:
@@ -414,6 +420,11 @@ def run_dataset(ds, acc, rng, n_extra=0):
         def get_ask(self, dt_, asset_):
             return src.get_bid(dt_, asset_) * 1.25 + 0.5
     spread_handler = BacktestDataHandler(None, data_sources=[Quoted()])
+    if len(ds.ev) % 2 == 1 and rng.random() < 0.5:
+        # from here on (the files are loaded, only questions follow) the host program escalates warnings to errors
+        import warnings
+        warnings.simplefilter('error')
+        acc.count('C06:datasets_queried_with_warnings_escalated_to_errors')
     acc.count('C06:datasets')
     for asset, ev in ds.ev.items():
         for t in instants(rng, ev):
